@@ -124,6 +124,39 @@ class OAltParentMapping(AlternativeMapping[OAltParent]):
         return OAltParent(float(self.derived), self.items)
 
 
-CLASSES = [OItem, OSubItem, OHolder, OSubHolder, OVec, OCarrier, OAltParent, OAltChild]
-ALTERNATIVE_MAPPINGS = [OVecMapping, OAltParentMapping]
+@dataclass(eq=False)
+class OPoint:
+    x: float = 0.0
+    y: float = 0.0
+
+
+@dataclass(eq=False)
+class OPoly:
+    """alternatively mapped; its mapping BUILDS fresh mapped objects while converting"""
+    name: str = ""
+    coords: list = field(default_factory=list)
+
+
+@dataclass
+class OPolyMapping(AlternativeMapping[OPoly]):
+    name: str
+    points: List[OPoint]
+
+    @classmethod
+    def create_instance(cls, obj: OPoly):
+        return cls(obj.name, [OPoint(float(x), float(y)) for x, y in obj.coords])
+
+    def create_from_dao(self) -> OPoly:
+        return OPoly(self.name, [(p.x, p.y) for p in self.points])
+
+
+@dataclass(eq=False)
+class ODrawing:
+    title: str = ""
+    lines: List[OPoly] = field(default_factory=list)
+    best: Optional[OPoly] = None
+
+
+CLASSES = [OItem, OSubItem, OHolder, OSubHolder, OVec, OCarrier, OAltParent, OAltChild, OPoint, OPoly, ODrawing]
+ALTERNATIVE_MAPPINGS = [OVecMapping, OAltParentMapping, OPolyMapping]
 TYPE_MAPPINGS = {OMoney: OMoneyType}
